@@ -332,6 +332,7 @@ class Check:
         self.level = level
         self.t0 = time.time()
         self.failures = []      # dicts: {what, dev, case}
+        self._dev_counts = {}   # occurrences per deviation classification (cases beyond the first 30 are only counted)
         self.cov = {"states": 0, "transitions": 0, "traces_validated_against_impl": 0, "samples": [],
                     "evaluations": 0, "distinct_nontrivial": 0, "rule": "", "tlc_runs": []}
         self.assumptions = []
@@ -362,6 +363,12 @@ class Check:
             self.cov["samples"].append(s)
 
     def fail(self, what, case, dev=None):
+        # occurrences classified under a deviation are counted; only the first 30 per deviation keep their (possibly large) case
+        if dev:
+            n = self._dev_counts.get(dev, 0)
+            self._dev_counts[dev] = n + 1
+            if n >= 30:
+                return
         self.failures.append({"what": what, "dev": dev, "case": case})
 
     # --- finishing -----------------------------------------------------------------------
@@ -377,8 +384,11 @@ class Check:
                     reported_known.setdefault(p, []).append(f)
             else:
                 viol.append(f)
+        def occurrences(dev_id, fs):
+            # all occurrences of classifications that contain this deviation (kept cases + the ones only counted)
+            return max(len(fs), sum(c for k, c in self._dev_counts.items() if dev_id in k.split("+")))
         for d, fs in sorted(reported_known.items()):
-            print("KNOWN-FINDING: property=%s %s [%s; %d occurrence(s) in this run]" % (self.pid, known[d]["what"], d, len(fs)))
+            print("KNOWN-FINDING: property=%s %s [%s; %d occurrence(s) in this run]" % (self.pid, known[d]["what"], d, occurrences(d, fs)))
         self.cov["distinct_nontrivial"] = len(self._distinct)
         if extra_cov:
             self.cov.update(extra_cov)
@@ -387,7 +397,7 @@ class Check:
             self.cov["exhaustive"] = bool(exhaustive)
             if isinstance(exhaustive, str):
                 self.cov["exhaustive_scope"] = exhaustive
-        self.cov["known_findings_seen"] = {d: len(fs) for d, fs in reported_known.items()}
+        self.cov["known_findings_seen"] = {d: occurrences(d, fs) for d, fs in reported_known.items()}
         if not self.cov["samples"]:
             self.cov["samples"] = ["(no sample recorded)"]
         ev = {"property_id": self.pid, "tier": self.tier, "seed": seed(), "level": self.level,
